@@ -29,6 +29,23 @@ REPLAY_DIR = os.path.join(ROOT, 'replays')
 MAX_KEEP_PER_CLASS = 3
 
 
+class InternalError(Exception):
+    """the harness or the reference model is inconsistent with itself: never a verdict about pyasn1"""
+
+
+def guarded(R, fn, rec, feats, idx):
+    """Run one case; any exception other than InternalError escaping a case on the checked tree is a
+    violation (the unchanged tree produces none), reported with the innermost pyasn1 frame as site."""
+    try:
+        fn()
+    except InternalError:
+        raise
+    except RecursionError as e:
+        R.violation('case.exception:RecursionError', rec, exc_text(e), 'no exception escapes the case', pyasn1_site(e), feats, idx)
+    except Exception as e:
+        R.violation('case.exception:' + type(e).__name__, rec, exc_text(e), 'no exception escapes the case', pyasn1_site(e), feats, idx)
+
+
 def digest64(obj):
     h = hashlib.blake2b(repr(obj).encode('utf-8', 'backslashreplace'), digest_size=8).digest()
     return int.from_bytes(h, 'big')
